@@ -295,12 +295,21 @@ static void s9_t0(void *a) { (void)a; do_unreg(1); }
 static void s9_t1(void *a) { (void)a; do_set(2, P3); do_get(2); }
 static void scen_unregister_vs_grow(void) { void *pre[2] = { P1, P2 }; setup(ATTR_STD, 3, 2, pre); cs_body_t b[] = { s9_t0, s9_t1 }; cs_run(2, b, NULL); finish_and_check(); }
 
+/* S10 (3 threads): first touch of a slot beyond the array (get) || growth + set + get of that slot || a new registration.
+ * The first toucher samples the array size under the read lock and re-checks under the write lock: a growth by
+ * another thread AND a registration in between must not make it resize from a stale size (found by a seeded change). */
+static void s10_t0(void *a) { (void)a; do_get(2); }
+static void s10_t1(void *a) { (void)a; do_set(2, P1); do_get(2); }
+static void s10_t2(void *a) { (void)a; do_reg(3); }
+static void scen_touch_grow_register(void) { void *pre[1] = { P3 }; setup(ATTR_STD, 3, 1, pre); cs_body_t b[] = { s10_t0, s10_t1, s10_t2 }; cs_run(3, b, NULL); finish_and_check(); }
+
 static cs_scenario_t scenarios[] = {
     { "set_get_vs_register_grow", scen_set_grow, 0 },
     { "grow_from_empty", scen_grow_from_empty, 0 },
     { "get_get_new_slot", scen_get_get_new_slot, 0 },
     { "tas_get_vs_grow_tas", scen_tas_vs_grow_tas, 0 },
     /* three threads: capped by --cap3 */
+    { "first_touch_vs_grow_set_vs_register", scen_touch_grow_register, 0 },
     { "tas_tas_vs_get_grow", scen_tas_tas_grow, 0 },
     { "get_get_ctor_vs_set_grow", scen_get_get_grow, 0 },
     { "grow_grow_vs_get_tas", scen_grow_grow, 0 },
@@ -309,7 +318,7 @@ static cs_scenario_t scenarios[] = {
     { "unregister_vs_grow", scen_unregister_vs_grow, 0 },
 };
 #define FIRST3 4
-#define NCHECKED 8
+#define NCHECKED 9
 int main(int argc, char **argv)
 {
     int n = NCHECKED, na = 0; char *av[64];
